@@ -2,9 +2,9 @@
 
 1. TLC checks Handlers.tla: the three dispatch methods over an UNINTERPRETED match relation; every Boolean match
    matrix for include / exclude lists of size 0..MaxPat (absent = default) x event classes x flags is enumerated, the
-   reachable set is the decision table; C15_* state the decision.  Handlers_neg_D13.cfg (strict reading of "its
-   paths" against the code's habit of examining the empty dest_path of non-move events) must be refuted, its witness
-   is replayed on the real RegexMatchingEventHandler; Handlers_fixed_D13.cfg shows the proposed repair satisfies it.
+   reachable set is the decision table; C15_* state the decision.  Handlers_neg_EmptyDest.cfg switches the repaired
+   defect back on (the EMPTY dest_path of a non-move event examined as if it were a path, /repo 4264f5e) and must be
+   refuted (non-vacuity of C15_RegexDecision); its witness shape is replayed on the real RegexMatchingEventHandler.
 2. Concrete events (all 11 classes; str and bytes paths over a small alphabet with case variants, empty paths, moves
    with two paths) x pattern / regex lists x case_sensitive x ignore_directories are dispatched to recording subclasses
    of the REAL handlers; the match matrix of every case is computed by an independent reference (pathlib / re) and
@@ -28,8 +28,6 @@ sys.path.insert(0, os.path.dirname(os.path.dirname(os.path.abspath(__file__))))
 
 from harness import checklib, loader, tlc  # noqa: E402
 
-STRICT = os.environ.get("VERIF_C15_STRICT_PATHS", "0") not in ("", "0")
-
 CLASSES = ["FileDeleted", "FileModified", "FileCreated", "FileMoved", "FileClosed", "FileClosedNoWrite", "FileOpened",
            "DirDeleted", "DirModified", "DirCreated", "DirMoved"]
 MOVES = ("FileMoved", "DirMoved")
@@ -43,7 +41,7 @@ EXC_Q = [None, [], ["*.py"], ["*.PY"], ["/d/*"], ["*.txt", "b.*"]]
 INC_T = INC_Q + [["a.*"], ["/D/*"], ["*.py", "*.PY"], ["d/*.py", "*/x/*"]]
 EXC_T = EXC_Q + [["*"], ["A.*"], ["*.txt"], ["/d/*", "*.py"]]
 # regexes: anchored-at-start semantics of re.match matter for "/d/a" and "a\.py"; "[^.]*$", "[^/]*$" and
-# "(?!.*\.txt$)" also match the EMPTY string (D13)
+# "(?!.*\.txt$)" also match the EMPTY string (finding C15-EmptyDest)
 RX_Q = [None, [], [r".*\.py"], [r".*"], [r".*/d$"], [r"/d/a"], [r"a\.py"], [r"[^.]*$"]]
 IGN_Q = [None, [], [r".*\.py"], [r".*/d$"], [r"[^/]*$"], [r".*\.PY", r".*\.txt"]]
 RX_T = RX_Q + [[r".*\.PY"], [r"(?!.*\.txt$)"], [r".*\.txt", r".*\.py"], [r"/D/"]]
@@ -150,7 +148,7 @@ def _dispatch_job(args):
         h = rec(regexes=inc, ignore_regexes=exc, ignore_directories=igndir, case_sensitive=cs)
     ck = conflict_kind(inc, exc, cs) if hk == "pattern" else None
     lines, keys = [], []
-    obs = {"d13": 0, "d13_ex": None, "dot": 0, "dot_ex": None}
+    obs = {"dot": 0, "dot_ex": None}
     for cname, e, d, s, kind in make_events(ev, paths):
         h.log, h.cur = [], e
         raised = ""
@@ -168,22 +166,14 @@ def _dispatch_job(args):
                           "ignored": igndir and isdir, "raised": raised, "case": case})
             if raised:
                 continue
-        lines.append({"e": "disp", "hk": hk, "cls": cname, "igndir": igndir, "cs": cs, "strict": STRICT, "rows": rows,
+        lines.append({"e": "disp", "hk": hk, "cls": cname, "igndir": igndir, "cs": cs, "rows": rows,
                       "calls": list(h.log), "raised": raised, "case": case})
-        # abstract decision-table key: the paths as the unfixed code forms them (dest always, src if non-empty)
+        # abstract decision-table key: matrix rows as Handlers.tla indexes them (row 1 = dest, row 2 = src if non-empty)
         formed = rows if s != "" else rows[:1]
         keys.append((hk, cname, igndir if hk != "base" else False, s != "", d != "", inc is None, exc is None,
                      tuple(tuple(r["inc"]) for r in formed) if hk != "base" else None,
                      tuple(tuple(r["exc"]) for r in formed) if hk != "base" else None, bool(h.log), len(lines) - 1))
-        # informational: decisions that hinge on the empty dest placeholder / on the default not being include-all
-        if hk == "regex" and not raised and not (igndir and isdir):
-            real = [r for r in rows if r["ne"]]
-            strict_dec = not any(any(r["exc"]) for r in real) and any(any(r["inc"]) for r in real)
-            if strict_dec != bool(h.log):
-                obs["d13"] += 1
-                if s != "" and (obs["d13_ex"] is None or "src_path=''" in obs["d13_ex"]["event"]):
-                    obs["d13_ex"] = case
-                obs["d13_ex"] = obs["d13_ex"] or case
+        # informational: the default include list is '*', which is not quite include-all
         if hk == "pattern" and inc is None and not raised and not (igndir and isdir) and not h.log:
             if any(p != "" and not any(ref_pattern(p, k, cs) for k in (exc or [])) for p in (d, s)):
                 obs["dot"] += 1
@@ -242,11 +232,11 @@ def sanity_reference(c, paths, incs, excs):
 
 def run(c: checklib.Check):
     ev, pt = world()
-    c.note(f"code under test: {os.path.dirname(ev.__file__)}" + ("  [strict reading of 'its paths']" if STRICT else ""))
+    c.note(f"code under test: {os.path.dirname(ev.__file__)}")
 
     # ---- 1. design spec
     cfg = "Handlers_thorough.cfg" if c.thorough else "Handlers_quick.cfg"
-    for name in (cfg, "Handlers_fixed_D13.cfg"):
+    for name in (cfg,):
         r = tlc.run_tlc("Handlers", name, workers=c.jobs, coverage=True, timeout=3000, heap="8g")
         c.add_tlc("Handlers:" + name, r)
         if not r.ok:
@@ -255,9 +245,9 @@ def run(c: checklib.Check):
             if r.coverage.get(act, 0) == 0:
                 c.machinery_failure(f"vacuity: action {act} never taken in {name}")
         c.note(f"TLC {name}: {r.distinct} distinct states, depth {r.depth}, {r.wall:.1f}s")
-    rn = tlc.run_tlc("Handlers", "Handlers_neg_D13.cfg", workers=1, timeout=600)
+    rn = tlc.run_tlc("Handlers", "Handlers_neg_EmptyDest.cfg", workers=1, timeout=600)
     if "C15_RegexDecision" not in rn.violated:
-        c.machinery_failure(f"vacuity: Handlers_neg_D13.cfg did not refute C15_RegexDecision: {rn.summary()}")
+        c.machinery_failure(f"vacuity: Handlers_neg_EmptyDest.cfg did not refute C15_RegexDecision: {rn.summary()}")
     # replay the shape of the witness on the real handler: a non-move event, an ignore regex that matches the empty
     # string but not the event's path, an include regex that matches the path
     rec = recorders(ev)["regex"]
@@ -266,10 +256,11 @@ def run(c: checklib.Check):
     h.log, h.cur = [], e
     h.dispatch(e)
     c.cov["dev_empty_dest_counts_reproduces"] = not h.log
-    c.note("TLC Handlers_neg_D13.cfg: strict reading refuted as expected (an ignore regex matching the EMPTY dest_path of a "
-           "non-move event suppresses it); on the real handler RegexMatchingEventHandler(regexes=['.*\\.py'], "
-           "ignore_regexes=['[^/]*$']).dispatch(FileDeletedEvent('/d/a.py')) -> callbacks " + str(h.log)
-           + (" : reproduces (D13)" if not h.log else " : does not reproduce (dest_path examined only when non-empty)"))
+    c.note("TLC Handlers_neg_EmptyDest.cfg: old behaviour switched back on violates C15_RegexDecision as expected (an ignore "
+           "regex matching the EMPTY dest_path of a non-move event suppresses it); on the real handler "
+           "RegexMatchingEventHandler(regexes=['.*\\.py'], ignore_regexes=['[^/]*$']).dispatch(FileDeletedEvent('/d/a.py')) "
+           "-> callbacks " + str(h.log)
+           + (" : the code under test HAS the defect" if not h.log else " : the code under test examines dest_path only when non-empty"))
     rt = tlc.run_tlc("Handlers", "Handlers_table.cfg", workers=1, timeout=900)
     if not rt.ok:
         c.machinery_failure(f"Handlers_table.cfg failed: {rt.violated} {rt.errors[:2]}")
@@ -296,15 +287,17 @@ def run(c: checklib.Check):
         seqs = [s for n in range(0, 3) for s in itertools.product(paths, repeat=n)] + \
                [s for s in itertools.product(PATHS_Q + ["."], repeat=3)]
     fjobs = [(i, x, cs, seqs, paths) for cs in (True, False) for i in incs for x in excs]
-    lines, keys, obs = [], [], {"d13": 0, "d13_ex": None, "dot": 0, "dot_ex": None}
+    lines, keys, obs = [], [], {"dot": 0, "dot_ex": None}
     with mp.get_context("fork").Pool(c.jobs) as pool:
         for ls, ks, ob in pool.map(_dispatch_job, jobs, chunksize=4):
             base = len(lines)
             lines.extend(ls)
             keys.extend(k[:-1] + (base + k[-1],) for k in ks)
-            for k in ("d13", "dot"):
+            for k in ("dot",):
                 obs[k] += ob[k]
-                obs[k + "_ex"] = obs[k + "_ex"] or ob[k + "_ex"]
+                cur, new = obs[k + "_ex"], ob[k + "_ex"]
+                if new and (cur is None or ("src_path=''" in cur["event"] and "src_path=''" not in new["event"])):
+                    obs[k + "_ex"] = new
         ndisp = len(lines)
         for ls in pool.map(_filter_job, fjobs, chunksize=2):
             lines.extend(ls)
@@ -361,13 +354,10 @@ def run(c: checklib.Check):
     if bad:
         c.note("failing clauses (case lines): " + ", ".join(f"{k}={v}" for k, v in sorted(perclause.items())))
         c.cov["failing_case_lines"] = perclause
-    if obs["d13"]:
-        c.note(f"OBSERVATION D13: {obs['d13']} regex-handler cases are decided by the EMPTY dest_path placeholder of a non-move "
-               f"event (accepted under the lenient reading of 'its paths'; VERIF_C15_STRICT_PATHS=1 reports them), e.g. {obs['d13_ex']}")
     if obs["dot"]:
         c.note(f"OBSERVATION: {obs['dot']} pattern-handler cases with the DEFAULT include list were not dispatched although a "
                f"non-empty, non-excluded path exists: the default '*' does not match paths without a name component, e.g. {obs['dot_ex']}")
-    c.cov["observations"] = {"decided_by_empty_dest_placeholder": obs["d13"], "default_include_not_all": obs["dot"]}
+    c.cov["observations"] = {"default_include_not_all": obs["dot"]}
     c.sample({"line": lines[ndisp // 2]})
     c.sample({"line": lines[-1]})
     c.assumptions += [
@@ -375,8 +365,7 @@ def run(c: checklib.Check):
         "with PureWindowsPath.match on the alphabet); one path vs one regex: re.match (anchored at the start, as the handler "
         "documents 'uses the re module' and its own tests rely on) with re.IGNORECASE when case-insensitive",
         "an absent include list is the documented default '*' / '.*', evaluated by the same reference",
-        "'its paths' = the non-empty ones of src_path / dest_path; unless VERIF_C15_STRICT_PATHS=1 a decision that counts an "
-        "empty placeholder as a path is accepted too (D13 pending)",
+        "'its paths' = the non-empty ones of src_path / dest_path; the empty dest_path of a non-move event is not a path",
         "patterns that coincide only after case folding (case-insensitive call) may be rejected or decided by the rule",
     ]
 
